@@ -5,6 +5,13 @@ global, a constant and a function result/argument; 16 structs/unions (plain,
 nested, arrays, bitfields, packed through a pragma in the source, partial with
 '...;', '[...]', flexible tail, anonymous typedef, enum fields); 8 enums;
 integer #defines and 'static const int X = n;' constants; a typedef chain.
+Added for C12 (audit gaps): structs/unions with anonymous struct/union members
+(kind 'anon', addressed by the flattened leaf names), a struct known only through a
+pointer typedef (via_pointer), '[...]' in two dimensions, bitfields of _Bool / enum /
+long long / in a union, 'static const' over eight more integer types at the types'
+boundaries, and a part 'misc' (variadic function, function-pointer / pointer / open
+array / '[...]' globals, non-integer constants, macro and static inline "functions",
+'typedef ... *p').
 
 The cdef is assembled from *parts* (one per struct / enum / constant / block of
 primitives) so that a mutant is "the universe cdef with exactly one part
@@ -250,8 +257,90 @@ STRUCTS = [
     dict(tag="s_pnest", su="struct", partial_base=True, cdef=["in"], deps=["s_plain"], fields=[
         F("pad", "char {n}", "scalar", "char"), F("in", "struct s_plain {n}", "struct", sub="s_plain"),
         F("q", "int {n}", "scalar", "int")]),
+    # ---- added for C12: anonymous struct/union members.  kind 'anon': name '', 'su' and 'sub' (the
+    # members); the leaves are addressed by their own names in C and in cffi (flat_fields()).
+    dict(tag="s_anon", su="struct", fields=[
+        F("k", "int {n}", "scalar", "int"),
+        F("", None, "anon", su="struct", sub=[F("p", "char {n}", "scalar", "char"), F("q", "short {n}", "scalar", "short")]),
+        F("", None, "anon", su="union", sub=[F("u1", "int {n}", "scalar", "int"), F("u2", "float {n}", "scalar", "float")]),
+        F("z", "char {n}", "scalar", "char")]),
+    dict(tag="u_anon", su="union", fields=[                       # anonymous member inside a union, last
+        F("w", "long long {n}", "scalar", "llong"),
+        F("", None, "anon", su="struct", sub=[F("p", "char {n}", "scalar", "char"), F("q", "int {n}", "scalar", "int")])]),
+    dict(tag="s_anon2", su="struct", fields=[                     # two levels, anonymous member last
+        F("h", "char {n}", "scalar", "char"),
+        F("", None, "anon", su="struct", sub=[
+            F("m", "short {n}", "scalar", "short"),
+            F("", None, "anon", su="union", sub=[F("c1", "char {n}", "scalar", "char"), F("c2", "int {n}", "scalar", "int")]),
+            F("n", "long long {n}", "scalar", "llong")])]),
+    dict(tag="s_anon1", su="struct", fields=[                     # anonymous member first and only member
+        F("", None, "anon", su="struct", sub=[F("a", "int {n}", "scalar", "int"), F("b", "char {n}", "scalar", "char")])]),
+    dict(tag="s_anonbf", su="struct", fields=[                    # a bitfield carrier (kept nested) next to a plain one
+        F("pre", "int {n}", "scalar", "int"),
+        F("", None, "anon", su="union", sub=[
+            F("a", "unsigned int {n}:3", "bits", "uint", base="unsigned int", width=3),
+            F("b", "unsigned int {n}:5", "bits", "uint", base="unsigned int", width=5)]),
+        F("", None, "anon", su="struct", sub=[F("p", "char {n}", "scalar", "char"), F("q", "int {n}", "scalar", "int")]),
+        F("t", "char {n}", "scalar", "char")]),
+    dict(tag="s_panon", su="struct", partial_base=True, cdef=["", "y"], fields=[    # anonymous member in a '...;' struct
+        F("x", "char {n}", "scalar", "char"),
+        F("", None, "anon", su="struct", sub=[F("p", "short {n}", "scalar", "short"), F("q", "long long {n}", "scalar", "llong")]),
+        F("y", "int {n}", "scalar", "int"),
+        F("w", "double {n}", "scalar", "double")]),
+    # ---- a struct known only through a pointer typedef: 'typedef struct { ... } *np_plain;'
+    dict(tag="np_plain", su="struct", typedef=True, via_pointer=True, fields=[
+        F("c", "char {n}", "scalar", "char"), F("x", "int {n}", "scalar", "int"),
+        F("ld", "long double {n}", "scalar", "ldouble"), F("z", "short {n}", "scalar", "short")]),
+    # ---- '[...]' in the first of two dimensions
+    dict(tag="s_dots2", su="struct", partial_base=True, fields=[
+        F("c", "char {n}", "scalar", "char"),
+        F("m", "short {n}[3][2]", "array", "short", base="short", dims=(3, 2), cdef_tmpl="short {n}[...][2]"),
+        F("t", "int {n}", "scalar", "int")]),
+    # ---- bitfields of _Bool, long long (wider than 32), an enum type; bitfields in a union
+    # (the enum is e_part, which has no mutants of its own: mutants of an enum and of a struct that uses it
+    # cannot share a module)
+    dict(tag="s_bf2", su="struct", deps=["e_part"], fields=[
+        F("f", "_Bool {n}:1", "bits", "bool", base="_Bool", width=1),
+        F("w", "long long {n}:40", "bits", "llong", base="long long", width=40),
+        F("g", "unsigned char {n}:3", "bits", "uchar", base="unsigned char", width=3),
+        F("e", "enum e_part {n}:4", "bits", "uint", base="enum e_part", width=4),
+        F("tail", "char {n}", "scalar", "char")]),
+    dict(tag="u_bf", su="union", fields=[
+        F("a", "unsigned int {n}:3", "bits", "uint", base="unsigned int", width=3),
+        F("b", "int {n}:5", "bits", "int", base="int", width=5),
+        F("c", "int {n}", "scalar", "int")]),
 ]
 STRUCT = {s["tag"]: s for s in STRUCTS}
+
+
+def flat_fields(fields):
+    """The named leaves of a field list: anonymous struct/union members are expanded (recursively),
+    as C and cffi expose them."""
+    for f in fields:
+        if f["kind"] == "anon":
+            for g in flat_fields(f["sub"]):
+                yield g
+        else:
+            yield f
+
+
+def has_anon(fields):
+    return any(f["kind"] == "anon" for f in fields)
+
+
+def field_label(f):
+    """A name for a field in operator labels (anonymous members have no name of their own)."""
+    if f["kind"] == "anon":
+        return "{%s}" % "+".join(g["name"] for g in flat_fields(f["sub"]))
+    return f["name"]
+
+
+def ctype_expr(s, tag=None):
+    """C expression naming the struct type itself (a via_pointer kind has no name for it)."""
+    tag = tag or s["tag"]
+    if s.get("via_pointer"):
+        return "__typeof__(*(%s)0)" % tag
+    return tname(s, tag)
 
 
 # Every struct kind is present NALIAS+1 times in the universe: once under its own tag
@@ -290,6 +379,8 @@ def slot_part(s, slot):
 
 
 def field_text(f, for_c):
+    if f["kind"] == "anon":
+        return "%s { %s };" % (f["su"], " ".join(field_text(g, for_c) for g in f["sub"]))
     t = f["tmpl"] if for_c else f.get("cdef_tmpl", f["tmpl"])
     return t.format(n=f["name"]) + ";"
 
@@ -301,7 +392,7 @@ def struct_text(s, fields, tag=None, partial=False, for_c=False):
     if partial and not for_c:
         body += " ...;"
     if s.get("typedef"):
-        return "typedef %s { %s } %s;\n" % (s["su"], body, tag)
+        return "typedef %s { %s } %s%s;\n" % (s["su"], body, "*" if s.get("via_pointer") else "", tag)
     return "%s %s { %s };\n" % (s["su"], tag, body)
 
 
@@ -314,7 +405,9 @@ def c_struct_def(s, fields=None, tag=None, packed=None):
 
 def base_cdef_fields(s):
     if "cdef" in s:
-        by = {f["name"]: f for f in s["fields"]}
+        by = {}
+        for f in s["fields"]:
+            by.setdefault(f["name"], f)
         return [by[n] for n in s["cdef"]]
     return list(s["fields"])
 
@@ -329,11 +422,15 @@ def struct_source(s):
                    "void *addr_gs_s_flex(void) { return &gs_s_flex_store; }\n"
                    "struct s_flex *ptr_s_flex(void) { return &gs_s_flex_store.s; }\n")
         return "".join(out)
+    if s.get("via_pointer"):
+        out.append("%s gs_%s;\nvoid *addr_gs_%s(void) { return &gs_%s; }\n%s ptr_%s(void) { return &gs_%s; }\n" % (
+            ctype_expr(s), tag, tag, tag, tag, tag, tag))
+        return "".join(out)
     out.append("%s gs_%s;\nvoid *addr_gs_%s(void) { return &gs_%s; }\n" % (T, tag, tag, tag))
     out.append("%s ret_%s(void) { return gs_%s; }\n" % (T, tag, tag))
     out.append("void take_%s(%s v) { gs_%s = v; }\n" % (tag, T, tag))
     out.append("%s *ptr_%s(void) { return &gs_%s; }\n" % (T, tag, tag))
-    for f in s["fields"]:
+    for f in flat_fields(s["fields"]):
         if f["kind"] == "bits":
             out.append("long long bfget_%s_%s(void) { return gs_%s.%s; }\n" % (tag, f["name"], tag, f["name"]))
             out.append("void bfset_%s_%s(long long v) { gs_%s.%s = v; }\n" % (tag, f["name"], tag, f["name"]))
@@ -345,9 +442,11 @@ def struct_cdef_extras(s):
     tag = s["tag"]
     if tag == "s_flex":
         return "void *addr_gs_s_flex(void);\nstruct s_flex *ptr_s_flex(void);\n"
+    if s.get("via_pointer"):
+        return "void *addr_gs_%s(void);\n%s ptr_%s(void);\n" % (tag, tag, tag)
     out = ["extern %s gs_%s;\nvoid *addr_gs_%s(void);\n%s ret_%s(void);\nvoid take_%s(%s);\n%s *ptr_%s(void);\n" % (
         T, tag, tag, T, tag, tag, T, T, tag)]
-    for f in s["fields"]:
+    for f in flat_fields(s["fields"]):
         if f["kind"] == "bits":
             out.append("long long bfget_%s_%s(void);\nvoid bfset_%s_%s(long long);\n" % (
                 tag, f["name"], tag, f["name"]))
@@ -358,8 +457,10 @@ def struct_extra_names(s):
     tag = s["tag"]
     if tag == "s_flex":
         return ["addr_gs_s_flex", "ptr_s_flex"]
+    if s.get("via_pointer"):
+        return ["addr_gs_" + tag, "ptr_" + tag]
     out = ["gs_" + tag, "addr_gs_" + tag, "ret_" + tag, "take_" + tag, "ptr_" + tag]
-    for f in s["fields"]:
+    for f in flat_fields(s["fields"]):
         if f["kind"] == "bits":
             out += ["bfget_%s_%s" % (tag, f["name"]), "bfset_%s_%s" % (tag, f["name"])]
     return out
@@ -459,6 +560,18 @@ CONSTS = [
     ("D_DOTS1", 77, "77", "dots"),
     ("D_DOTS2", -9000000000, "(-9000000000LL)", "dots"),
     ("D_DOTS3", (1 << 20) + 3, "((1<<20)+3)", "dots"),
+    # added for C12: 'static const' over more integer types, values at the type's own boundaries
+    ("KT_UCHAR", 255, "255", "const:unsigned char"),
+    ("KT_SCHAR", -128, "(-128)", "const:signed char"),
+    ("KT_SHORT", -32768, "(-32768)", "const:short"),
+    ("KT_BOOL", 1, "1", "const:_Bool"),
+    ("KT_LLMIN", -9223372036854775808, "(-9223372036854775807LL-1)", "const:long long"),
+    ("KT_LLMAX", 9223372036854775807, "9223372036854775807LL", "const:long long"),
+    ("KT_ULL63", 9223372036854775808, "9223372036854775808ULL", "const:unsigned long long"),
+    ("KT_ULLMAX", 18446744073709551615, "18446744073709551615ULL", "const:unsigned long long"),
+    ("KT_I8", 127, "127", "const:int8_t"),
+    ("KT_SIZE", 18446744073709551615, "((size_t)-1)", "const:size_t"),
+    ("KT_UZERO", 0, "0", "const:unsigned long long"),
 ]
 CONST = {c[0]: c for c in CONSTS}
 
@@ -505,6 +618,67 @@ TYPEDEF_TYPES = ["t1", "t2", "t3", "t4", "tu_dots", "ti_dots", "tf_dots", "opq_t
 
 
 # ---------------------------------------------------------------------------------------
+# part 'misc' (added for C12): item kinds the statement lists that the rest of the universe lacks
+
+MISC_TYPES_SRC = ("#include <stdarg.h>\n"
+                  "typedef struct opq2_s { int hidden2; } *opq_p;\n")
+MISC_CODE = r"""
+int vsum(int n, ...) { va_list ap; int s = 0; va_start(ap, n); while (n-- > 0) s += va_arg(ap, int); va_end(ap); return s; }
+double vmix(const char *fmt, ...) { va_list ap; double s = 0; va_start(ap, fmt);
+    for (; *fmt; fmt++) { if (*fmt == 'i') s += va_arg(ap, int); else if (*fmt == 'l') s += (double)va_arg(ap, long long);
+                          else if (*fmt == 'd') s += va_arg(ap, double); else if (*fmt == 'p') s += *(short *)va_arg(ap, void *); }
+    va_end(ap); return s; }
+static int misc_dbl(int x) { return 2 * x; }
+static int misc_neg(int x) { return -x; }
+int (*g_fp)(int) = misc_dbl;
+void *addr_g_fp(void) { return &g_fp; }
+void *addr_misc_dbl(void) { return (void *)misc_dbl; }
+void *addr_misc_neg(void) { return (void *)misc_neg; }
+int call_g_fp(int x) { return g_fp(x); }
+char g_strbuf[8] = "hello";
+char *g_str = g_strbuf;
+void *addr_g_str(void) { return &g_str; }
+void *addr_g_strbuf(void) { return g_strbuf; }
+int g_open[3] = { 1, 2, 3 };
+void *addr_g_open(void) { return g_open; }
+int g_dots[5] = { 10, 20, 30, 40, 50 };
+void *addr_g_dots(void) { return g_dots; }
+short g_m[2][3] = { { 1, 2, 3 }, { 4, 5, 6 } };
+void *addr_g_m(void) { return g_m; }
+long long g_m2[4][3];
+void *addr_g_m2(void) { return g_m2; }
+static const double K_PI = 3.25;
+static const float K_F = -0.5f;
+const char *const g_ccs = "const-hello";
+void *addr_g_ccs_target(void) { return (void *)g_ccs; }
+static const struct s_plain K_S = { 'x', -7, 12, 1LL << 40 };
+#define mac_add(a, b) ((a) + (b))
+static inline long inl_neg(long x) { return -x; }
+static struct opq2_s the_opq2 = { 4321 };
+opq_p get_opq_p(void) { return &the_opq2; }
+int opq_p_get(opq_p p) { return p->hidden2; }
+void *addr_the_opq2(void) { return &the_opq2; }
+"""
+MISC_CDEF = ("int vsum(int n, ...);\ndouble vmix(const char *fmt, ...);\n"
+             "extern int (*g_fp)(int);\nvoid *addr_g_fp(void);\nvoid *addr_misc_dbl(void);\nvoid *addr_misc_neg(void);\n"
+             "int call_g_fp(int);\n"
+             "extern char *g_str;\nvoid *addr_g_str(void);\nvoid *addr_g_strbuf(void);\n"
+             "extern int g_open[];\nvoid *addr_g_open(void);\n"
+             "extern int g_dots[...];\nvoid *addr_g_dots(void);\n"
+             "extern short g_m[2][...];\nvoid *addr_g_m(void);\n"
+             "extern long long g_m2[...][...];\nvoid *addr_g_m2(void);\n"
+             "static const double K_PI;\nstatic const float K_F;\n"
+             "extern const char *const g_ccs;\nvoid *addr_g_ccs_target(void);\n"
+             "static const struct s_plain K_S;\n"
+             "int mac_add(int, int);\nlong inl_neg(long);\n"
+             "typedef ... *opq_p;\nopq_p get_opq_p(void);\nint opq_p_get(opq_p);\nvoid *addr_the_opq2(void);\n")
+MISC_NAMES = ["vsum", "vmix", "g_fp", "addr_g_fp", "addr_misc_dbl", "addr_misc_neg", "call_g_fp", "g_str", "addr_g_str",
+              "addr_g_strbuf", "g_open", "addr_g_open", "g_dots", "addr_g_dots", "g_m", "addr_g_m", "g_m2", "addr_g_m2",
+              "K_PI", "K_F", "g_ccs", "addr_g_ccs_target", "K_S", "mac_add", "inl_neg", "get_opq_p", "opq_p_get",
+              "addr_the_opq2"]
+
+
+# ---------------------------------------------------------------------------------------
 # assembling source, reference program and cdef parts
 
 def types_source():
@@ -518,6 +692,7 @@ def types_source():
     for c in CONSTS:
         out.append(const_source(c))
     out.append(TYPEDEF_SRC)
+    out.append(MISC_TYPES_SRC)
     return "".join(out)
 
 
@@ -530,6 +705,7 @@ def code_source():
     for e in ENUMS:
         out.append(enum_source(e))
     out.append(TYPEDEF_CODE)
+    out.append(MISC_CODE)
     return "".join(out)
 
 
@@ -554,6 +730,7 @@ def parts():
         out.append(("const:" + c[0], const_cdef(c), {}))
     out.append(("extras", "".join(struct_cdef_extras(s) for s in STRUCTS) +
                 "".join(enum_cdef_extras(e) for e in ENUMS) + TYPEDEF_CDEF, {}))
+    out.append(("misc", MISC_CDEF, {}))
     return out
 
 
@@ -605,9 +782,9 @@ def reference_main():
         b.append('%s("KC", "%s", kc_%s);' % (pr, k, k))
         b.append('%s("KN", "%s", kn_%s);' % (pr, k, k))
     for s in STRUCTS:
-        T = tname(s)
+        T = ctype_expr(s)
         b.append('printf("S %s %%d %%d\\n", (int)sizeof(%s), (int)_Alignof(%s));' % (s["tag"], T, T))
-        for f in s["fields"]:
+        for f in flat_fields(s["fields"]):
             if f["kind"] == "bits":
                 continue
             sz = "-1" if f["kind"] == "flex" else "(int)sizeof(((%s *)0)->%s)" % (T, f["name"])
@@ -626,11 +803,37 @@ def reference_main():
         if t == "opq_t":
             continue
         b.append('printf("T %s %%d %%d\\n", (int)sizeof(%s), (int)_Alignof(%s));' % (t, t, t))
+    # part 'misc': X = a C value of the universe, printed by the reference program
+    b.append('PRINT_FLT("X", "K_PI", K_PI);')
+    b.append('PRINT_FLT("X", "K_F", K_F);')
+    for fld in "abcd":
+        b.append('PRINT_INT("X", "K_S.%s", K_S.%s);' % (fld, fld))
+    b.append('PRINT_INT("X", "vsum", vsum(3, 1, 2, 4));')
+    b.append('PRINT_INT("X", "vsum0", vsum(0));')
+    b.append('{ short sh = -9; PRINT_FLT("X", "vmix", vmix("ildp", -5, 1LL << 40, 0.25, (void *)&sh)); }')
+    b.append('PRINT_INT("X", "g_fp", g_fp(21));')
+    b.append('PRINT_INT("X", "mac_add", mac_add(3, 4));')
+    b.append('PRINT_INT("X", "inl_neg", inl_neg(3));')
+    b.append('PRINT_INT("X", "opq_p_get", opq_p_get(get_opq_p()));')
+    b.append('printf("XS g_str %s\\n", g_str);')
+    b.append('printf("XS g_ccs %s\\n", g_ccs);')
+    for nm, n in (("g_open", 3), ("g_dots", 5)):
+        b.append('PRINT_INT("X", "len_%s", sizeof(%s) / sizeof(%s[0]));' % (nm, nm, nm))
+        for i in range(n):
+            b.append('PRINT_INT("X", "%s[%d]", %s[%d]);' % (nm, i, nm, i))
+    for nm in ("g_m", "g_m2"):
+        b.append('PRINT_INT("X", "len0_%s", sizeof(%s) / sizeof(%s[0]));' % (nm, nm, nm))
+        b.append('PRINT_INT("X", "len1_%s", sizeof(%s[0]) / sizeof(%s[0][0]));' % (nm, nm, nm))
+        b.append('PRINT_INT("X", "size_%s", sizeof(%s));' % (nm, nm))
+    for i in range(2):
+        for j in range(3):
+            b.append('PRINT_INT("X", "g_m[%d][%d]", g_m[%d][%d]);' % (i, j, i, j))
     return PRINT_HELPERS + "int main(void) {\n" + "\n".join(b) + "\nreturn 0; }\n"
 
 
 def parse_reference(out):
-    facts = {"P": {}, "GI": {}, "KC": {}, "KN": {}, "S": {}, "F": {}, "E": {}, "GE": {}, "V": {}, "T": {}}
+    facts = {"P": {}, "GI": {}, "KC": {}, "KN": {}, "S": {}, "F": {}, "E": {}, "GE": {}, "V": {}, "T": {}, "X": {},
+             "XS": {}}
     for line in out.splitlines():
         p = line.split()
         k = p[0]
@@ -648,6 +851,10 @@ def parse_reference(out):
             facts[k][p[1]] = int(p[2])
         elif k == "T":
             facts["T"][p[1]] = (int(p[2]), int(p[3]))
+        elif k == "X":
+            facts["X"][p[1]] = p[2]
+        elif k == "XS":
+            facts["XS"][p[1]] = line.split(" ", 2)[2]
     return facts
 
 
@@ -667,4 +874,5 @@ def declared_names():
             out += ["ge_" + e["key"], "ide_" + e["key"]]
     out += [c[0] for c in CONSTS]
     out += TYPEDEF_NAMES
+    out += MISC_NAMES
     return out
